@@ -14,4 +14,6 @@ FILES="$(find theories -name '*.v' | sort) gen/TablesCur.v"
 printf '%s\n' $FILES > .filelist.tmp
 coq_makefile -f _CoqProject -o Makefile $FILES
 timeout 7200 make -j"$(nproc)" > ../.build/coq_build.log 2>&1 || { tail -40 ../.build/coq_build.log; exit 1; }
+cd ..
+python3 tools/check.py warm-audit
 echo "setup ok"
